@@ -5,6 +5,7 @@ toy AEAD used for the small-scale tamper tie of C02).
 -/
 import KitModel.Go.Prelude
 import KitModel.Enc
+import KitModel.EncPipe
 
 namespace Kit.Enc.Drv
 open Kit Kit.Enc
@@ -61,6 +62,16 @@ def answerBasic (l : Line) : Option String :=
       let fn := if dir == "seal" then toySeal key else toyOpen key
       let res := processSegments (if dir == "seal" then seg else seg + 1) Gen.maxSegment fn r
       pure s!"out={toHex res.out} ncalls={res.calls.length} term={res.term.name}" : Option String).getD "bad-request"
+  | "pipe" => some <| (do
+      -- `pipe writes=<hex>;<hex>;… closed=<ok|err> bufs=a,b,… dflt=n`: io.Pipe with a scripted consumer
+      let wsS := (l.get? "writes").getD ""
+      let ws ← (if wsS == "" then some [] else (wsS.splitOn ";").mapM (fun h => if h == "-" then some [] else fromHex h))
+      let bufs ← (l.nats? "bufs").orElse (fun _ => some [])
+      let dflt ← l.nat? "dflt"
+      let term : Terminal := if (l.get? "closed").getD "ok" == "ok" then .ok else .err .source
+      let got := Pipe.consumeAll ws term bufs dflt
+      pure s!"reads={";".intercalate (got.1.map fun b => if b.isEmpty then "-" else toHex b)} term={got.2.name}"
+      : Option String).getD "bad-request"
   | "rh" => some <| (do
       let r ← readerOf l
       let fix := (l.get? "fix").getD "1" == "1"
